@@ -318,6 +318,12 @@ def rmul(a, b, dt=None):
             return a
         if isinstance(fb.ex, Fraction) and fb.ex == -1:
             return -a
+    if z3.is_expr(a) and z3.is_expr(b) and a.get_id() == b.get_id():
+        if a.get_id() in _ABS_OF:
+            x = _ABS_OF[a.get_id()][1]
+            return x * x
+        if a.get_id() in _SQRT_OF:  # sqrt(X)*sqrt(X) = X (X >= 0: complex modulus, or definedness is checked separately)
+            return _SQRT_OF[a.get_id()][1]
     return zr(a, "mul") * zr(b, "mul")
 
 
@@ -386,7 +392,13 @@ def rabs(a, dt=None):
             return abs(a)
         a = asfl(a)
         return Fl(abs(a.nat), None if a.ex is None else (abs(a.ex) if isinstance(a.ex, Fraction) else (a.ex if a.nat >= 0 else -a.ex)), a.ok)
-    return z3.If(a >= 0, a, -a)
+    t = z3.If(a >= 0, a, -a)
+    _ABS_OF[t.get_id()] = (t, a)  # remember |a| so that |a|*|a| can be folded to a*a (sound, avoids 2^n case splits)
+    return t
+
+
+_ABS_OF = {}
+_SQRT_OF = {}  # id of an Ackermannised square-root variable -> (var, radicand); filled by the interpreter
 
 
 def rsign(a, dt=None):
